@@ -193,6 +193,47 @@ class TheoremStream(Stream):
         return {k: case[k] for k in ("s", "f", "tmpl", "cpr", "lic", "con", "t", "kind") if k in case}
 
 
+class Theorem2Stream(TheoremStream):
+    """The tie for C10_idem_partial2: the driver evaluates every hypothesis of the theorem (style of the table, template not
+    pre-commented, header free of exotic line boundaries, shape of what follows the header, not '% !TEX', the header carries
+    REUSE information, Spec.nothingAbove, create_header reproduces the block) and Spec.secondRunOK, which the theorem derives
+    from them.  Where the hypotheses hold: secondRunOK must have been evaluated true (C10_second_run_ok, checked on the
+    evaluation itself) and the implementation must have written, twice, exactly the theorem's text."""
+    name = "theorem2"
+    rule = ("the cases of stream `theorem` with the default template (fresh sample): add_header_to_file twice; the driver evaluates the "
+            "hypotheses of C10_idem_partial2 and Spec.secondRunOK; where the hypotheses hold, secondRunOK holds (C10_second_run_ok) and "
+            "both runs equal the theorem's text; non-trivial = the hypotheses of C10_idem_partial2 hold (measured non-vacuity); "
+            "the property oracle is applied by stream `theorem`")
+
+    def cases(self, tier, rng):
+        return [c for c in super().cases(tier, rng) if c["tmpl"] == "default" and c["s"] != "EmptyCommentStyle"]
+
+    def impl(self, case):
+        return json.dumps(run_n(case, 2))
+
+    def oracle(self, case, impl_out):
+        return None
+
+    def model_lines(self, case):
+        return ["c10hyp2\t%s\t%s\tdefault\t%s\t%s\t%s\t%s\t%s" % (
+            case["s"], case["f"], enc_list(case["cpr"]), enc_list(case["con"]), enc_list(case["lic"]), enc_list(case.get("bad", [])),
+            enc(case["t"]))]
+
+    def agree(self, case, impl_out, model_out):
+        hyp2, sec, lf, fresh, text = model_out.split("|")
+        if hyp2 != "1":
+            return True
+        self._hyp = getattr(self, "_hyp", set())
+        self._hyp.add(json.dumps(case, sort_keys=True))
+        if sec != "1":
+            return False
+        if lf != "1":
+            return True
+        outs = json.loads(impl_out)
+        want = "W:" + dec(text)
+        return outs[0] == want and outs[1] == want
+
+
 class StyleTableStream(Stream):
     """Spec.StyleIdem per (style, mode), evaluated by the driver, against the real create_comment / comment_at_first_character
     on the same representative texts and continuations (C10_table is this predicate decided in the kernel)."""
@@ -424,6 +465,6 @@ class SeedStream(Stream):
 
 PROPERTY = Property(
     pid="C10",
-    streams=[TheoremStream(), StyleTableStream(), annotcorr.CommentAtStream(), annotcorr.CreateCommentStream(), CliStream(), SeedStream()],
+    streams=[TheoremStream(), Theorem2Stream(), StyleTableStream(), annotcorr.CommentAtStream(), annotcorr.CreateCommentStream(), CliStream(), SeedStream()],
     assumptions=[],
 )
